@@ -12,3 +12,9 @@ claim("C12",
   "For each generated (schema set, value) the accept/reject verdict must be identical in default, fail-fast, multi-error, customised and format-option modes and through IsMatching / IsMatchingJSON*, and each *SchemaError that is the result or a multi-error member must point inside the value (to the enclosing object for 'required') and quote the value found there. Sampled, bounded depth (<= 4).",
   "Trusted: the default mode's verdict as the reference for the other modes (C01 separately ties it to the specification); jv.Resolve as pointer semantics. Errors nested as causes are not asserted. For the 'cannot compile pattern' error, which quotes no value, only the location is asserted.",
   "DESIGN.md#c12")
+
+claim("C19",
+  "property-based testing with a taint-style invariant oracle: rapid-generated schemas x rejected values whose string leaves are unique markers absent from the schema, through VisitJSON, ValidateRequest (body, query parameter) and ValidateResponse in default and multi-error modes, with a reason-only message function and (own processes) with SchemaErrorDetailsDisabled; native fuzzing in the thorough tier",
+  "For each rejected marker-carrying value, every *SchemaError reachable from the returned error (multi-error members, Unwrap, Origin) must have a Reason free of markers, and the whole Error() text must be free of markers under a reason-only WithCustomSchemaErrorFunc or with schema error details disabled. Sampled; the evidence lists the failing keyword x entry point classes actually reached.",
+  "Trusted: marker construction (length >= 6, absent from the schema text). Property names are not 'string values' here. Parse errors of parameters are outside the quantifier (only parameters that parse but fail their schema are asserted).",
+  "DESIGN.md#c19")
